@@ -234,6 +234,54 @@ FRemFin(a, b) ==
               IF r = <<>> THEN [ok |-> TRUE, f |-> FZero(a.neg)] ELSE RoundRat(a.neg, r, <<1>>, a.e)
 
 -----------------------------------------------------------------------------
+(* Display of a double: the shortest decimal numeral that reads back as the same double (Steele & White's free-format   *)
+(* algorithm with exact naturals; the reader rounds to even, so the boundaries belong to the interval exactly when the   *)
+(* mantissa is even), written positionally without an exponent - what Rust's `{}` prints for an f64.                    *)
+FNorm(f) == LET sh == 53 - BitLen(f.m) IN [m |-> NatMul(f.m, Pow2(sh)), e |-> f.e - sh]          \* 2^52 <= m < 2^53
+FHigh(r, mp, s, even) == LET c == NatCmp(NatAdd(r, mp), s) IN IF even THEN c >= 0 ELSE c > 0
+RECURSIVE FScaleUp(_, _, _, _, _), FScaleDown(_, _, _, _, _, _), FGen(_, _, _, _, _, _)
+FScaleUp(r, s, mp, k, even) == IF FHigh(r, mp, s, even) THEN FScaleUp(r, NatMulSmall(s, 10), mp, k + 1, even) ELSE [s |-> s, k |-> k]
+FScaleDown(r, s, mp, mm, k, even) ==
+    IF FHigh(NatMulSmall(r, 10), NatMulSmall(mp, 10), s, even) THEN [r |-> r, mp |-> mp, mm |-> mm, k |-> k]
+    ELSE FScaleDown(NatMulSmall(r, 10), s, NatMulSmall(mp, 10), NatMulSmall(mm, 10), k - 1, even)
+FGen(r, s, mp, mm, even, acc) ==
+    LET qd == NatDivMod(NatMulSmall(r, 10), s)
+        d == IF qd.q = <<>> THEN 0 ELSE qd.q[1]
+        r2 == qd.r
+        mp2 == NatMulSmall(mp, 10)
+        mm2 == NatMulSmall(mm, 10)
+        low == IF even THEN NatCmp(r2, mm2) <= 0 ELSE NatCmp(r2, mm2) < 0
+        high == FHigh(r2, mp2, s, even) IN
+    IF ~low /\ ~high THEN FGen(r2, s, mp2, mm2, even, Append(acc, d))
+    ELSE IF low /\ ~high THEN Append(acc, d)
+    ELSE IF ~low /\ high THEN Append(acc, d + 1)
+    ELSE IF NatCmp(NatMulSmall(r2, 2), s) < 0 THEN Append(acc, d) ELSE Append(acc, d + 1)
+(* digits ds and exponent k with |f| = 0.ds * 10^k *)
+FDigits(f) ==
+    LET n == FNorm(f)
+        even == ~IsOdd(n.m)
+        narrow == NatCmp(n.m, Pow2(52)) = 0                    \* the lower neighbour is half as far away
+        r0 == IF n.e >= 0 THEN NatMul(n.m, Pow2(n.e + (IF narrow THEN 2 ELSE 1))) ELSE NatMulSmall(n.m, IF narrow THEN 4 ELSE 2)
+        s0 == IF n.e >= 0 THEN (IF narrow THEN <<4>> ELSE <<2>>) ELSE Pow2((IF narrow THEN 2 ELSE 1) - n.e)
+        mp0 == IF n.e >= 0 THEN Pow2(n.e + (IF narrow THEN 1 ELSE 0)) ELSE (IF narrow THEN <<2>> ELSE <<1>>)
+        mm0 == IF n.e >= 0 THEN Pow2(n.e) ELSE <<1>>
+        up == FScaleUp(r0, s0, mp0, 0, even)
+        dn == FScaleDown(r0, up.s, mp0, mm0, up.k, even) IN
+    [ds |-> FGen(dn.r, up.s, dn.mp, dn.mm, even, <<>>), k |-> dn.k]
+RECURSIVE DigitStr(_, _, _), Zeros(_)
+DigitStr(ds, i, j) == IF i > j THEN "" ELSE ToString(ds[i]) \o DigitStr(ds, i + 1, j)
+Zeros(n) == IF n <= 0 THEN "" ELSE "0" \o Zeros(n - 1)
+FloatText(f) ==
+    IF f.cls = "nan" THEN "NaN"
+    ELSE (IF f.neg THEN "-" ELSE "") \o
+         (IF f.cls = "inf" THEN "inf"
+          ELSE IF f.m = <<>> THEN "0"
+          ELSE LET x == FDigits(f) n == Len(x.ds) IN
+               IF x.k <= 0 THEN "0." \o Zeros(0 - x.k) \o DigitStr(x.ds, 1, n)
+               ELSE IF x.k >= n THEN DigitStr(x.ds, 1, n) \o Zeros(x.k - n)
+               ELSE DigitStr(x.ds, 1, x.k) \o "." \o DigitStr(x.ds, x.k + 1, n))
+
+-----------------------------------------------------------------------------
 (* values: [kind, z] for integer kinds, [kind |-> "float", f] for doubles *)
 VI(kind, z) == [kind |-> kind, z |-> z]
 VF(f) == [kind |-> "float", f |-> f]
